@@ -24,7 +24,27 @@ SPEC = {
             ") ] ; : , := ( [ THEN DO OF TO BY ELSE ELSIF UNTIL END_IF END_CASE END_VAR END_PROGRAM, end of input, a "
             "rotating slice of the remaining punctuation/END_*/structural keywords and trivia pieces; thorough: the whole "
             "focused list spaced, glued and followed by EOF; plus random (snippet|corpus file, boundary) pairs with the "
-            "whole real token table), the nesting families (in EVERY run, each text in its own capped child process on a thread "
+            "whole real token table; every injected variant that the CURRENT parser accepts without errors joins the pool "
+            "of error-free inputs and gets spaces / newlines / block comments at the boundaries of the two significant "
+            "tokens on either side of the injection point), keywords in identifier positions (kwpos, in EVERY run, one "
+            "child process per base text: 11 compact texts that contain every identifier position of the grammar - member "
+            "behind '.', base of a member access, callee, named-argument name, behind '#', typed-literal prefix and value, "
+            "label / JMP target, FOR control variable, CASE labels, variable / field / type / enum-value / POU / method / "
+            "action / property / namespace / USING / EXTENDS / IMPLEMENTS names, qualified type names, array bounds, "
+            "subrange bounds, SIZEOF / ADR / REF operands, configuration / resource / task / program-configuration / "
+            "VAR_ACCESS / VAR_CONFIG names - plus 3 of the 24 sweep snippets rotating with the seed (thorough: all 24); "
+            "every identifier-shaped non-keyword token is a hole and receives, one at a time, EVERY identifier-shaped word "
+            "of the real #[token] table (164 keywords) as spelled there and, for a rotating quarter, in lower or mixed case "
+            "(thorough: all three spellings): about 30 000 candidate texts per run; every candidate is parsed (no panic, "
+            "tree text = input, error ranges inside the text; a rotating eighth and every accepted one get the whole "
+            "lossless oracle); the pool of error-free inputs is what the CURRENT parser accepts - about 1 900 of the "
+            "candidates on the unchanged tree (EN / ENO / TRUE / REF / NEW ... as names, type keywords as types, any word "
+            "in a typed-literal prefix) - and every member must keep its trivia-free tree shape and stay error-free when "
+            "' ', newline, '(* c *)' or '/* c */' is inserted at each boundary of the hole token and of its two neighbours; "
+            "the first accepted candidate of every distinct node structure and of a rotating quarter of the holes gets each "
+            "piece between EVERY pair of adjacent significant tokens, the base texts at every token boundary; thorough: 9 "
+            "pieces, at every token boundary for the first three accepted candidates of every hole and every new structure, "
+            "around the hole for the others), the nesting families (in EVERY run, each text in its own capped child process on a thread "
             "with a 2 MiB stack: (i) 16 expression forms - parentheses, call arguments positional/named/second, index lists, "
             "right-associative **, unary - and NOT, unary after binary, call/index and paren/call alternations, ADR, and the "
             "three flat chains a + a + .., a.b.b.., a^[1](2).. - at exactly MAX_EXPRESSION_DEPTH levels, one more, 76 more, "
@@ -82,6 +102,10 @@ MANIFEST = {
     "level_text": "Proved for every input (no bound): c12_lexer_iterator + c12_lex_tiles / c12_lex_boundaries (Lexer::next "
                   "with its pending queue; the IntLiteral-dot split keeps token ranges contiguous, non-empty, non-overlapping "
                   "and on character boundaries), c12_tokens_concat (token texts of a tiling concatenate to the text), "
+                  "c12_lex_trivia_barrier / c12_lex_trivia_insertion / c12_lex_trivia_insertion_kinds (lexer part of the "
+                  "trivia-insertion clause: the post-pass keeps no state across a trivia token, the final token list of a text "
+                  "with a piece of trivia inserted at a token boundary is the old list with the trivia token inserted and the "
+                  "rest moved, and the kinds of the significant tokens - all the grammar looks at - are unchanged), "
                   "c12_sink_lossless_events / c12_sink_tokens_events (for every token list and every event stream meeting "
                   "decidable premises E1-E3 (E4), Sink::finish with rowan's builder neither panics nor loops, the text of the "
                   "tree equals the input and its leaves are exactly the lexer's tokens; forward-parent chains of any shape "
@@ -94,7 +118,9 @@ MANIFEST = {
     "level_note": "PARTIAL. Not proved, only tested on generated inputs (oracle on the implementation): that the grammar "
                   "functions terminate without panic, keep the Marker discipline and consume every token; purity (parse "
                   "twice, compare green trees and errors); tree-shape invariance under insertion of spaces/newlines/block "
-                  "comments at token boundaries for error-free inputs. Trusted: Lean kernel + standard axioms; the "
+                  "comments at token boundaries for error-free inputs (random boundaries of every error-free case; exhaustively "
+                  "for the sweep snippets and for the kwpos family, whose pool of error-free inputs is whatever the parser under "
+                  "test accepts among all texts with a keyword in an identifier position). Trusted: Lean kernel + standard axioms; the "
                   "hand-written model (validated by the differential run only); rowan's builder as modelled; logos as a "
                   "black box whose spans are monitored. Termination without stack overflow is DECIDED per run, not proved: every "
                   "recursive grammar rule (59 forms, see 'rule') is parsed, re-parsed and dropped on a 2 MiB stack at, just beyond "
@@ -196,6 +222,16 @@ def extra(ctx):
     fails.sort(key=lambda d: 0 if any("child process died" in b or "no progress within" in b for b in d.get("failed", [])) else 1)
     failures = []
     complete = len(ctx["cases"]) >= 600  # a replay of one case (--only) does not run the families
+    if complete:
+        kw = [c for c in ctx["cases"] if any(l.startswith("# class kwpos ") for l in c.lines)]
+        stats = [l for c in kw for l in c.lines if l.startswith("# kwpos base=")]
+        cands = sum(int(kv.split("=")[1]) for l in stats for kv in l.split() if kv.startswith("candidates="))
+        acc = sum(int(kv.split("=")[1]) for l in stats for kv in l.split() if kv.startswith("accepted="))
+        crashed = [c for c in kw if any("child process died" in l or "no progress within" in l for l in c.lines)]
+        if not crashed and (len(kw) < 11 or len(stats) < len(kw) or cands < 20000 or acc < 100):
+            failures.append(f"kwpos family incomplete: {len(kw)} base texts, {cands} candidates, {acc} accepted by the parser "
+                            "(expected >= 11 base texts, >= 20000 candidates, >= 100 accepted: the pool of error-free inputs "
+                            "would be empty and the trivia-insertion clause vacuous)")
     if complete and not fails:
         for f in _all_findings():
             for w in (f.get("witness") or {}).get("replayed_as", []):
@@ -214,7 +250,13 @@ def extra(ctx):
                                         "in order", "events and errors are reproducible by parser operations (Marker discipline)",
                                         "error-free inputs: same shape (trivia-free pre-order dump) "
                                         "and still error-free after inserting spaces/newlines/block comments at token "
-                                        "boundaries", "premises of c12_sink_lossless_events hold on the real stream",
+                                        "boundaries (an insertion counts when the TEXTS of the significant tokens are "
+                                        "untouched; a token that changes its kind because of the inserted trivia is a failure, "
+                                        "not a skipped insertion)",
+                                        "kwpos: the pool of error-free inputs is taken from what the current parser accepts "
+                                        "among all (identifier position, keyword) candidates; every accepted candidate is "
+                                        "stable under trivia insertion around the keyword, a representative of every accepted "
+                                        "structure between every pair of adjacent tokens", "premises of c12_sink_lossless_events hold on the real stream",
                                         "nesting families: the process survives parse + second parse + drop on a 2 MiB stack, "
                                         "and the nesting-limit error is reported iff the form exceeds the limit read from the source"]},
     }
